@@ -15,6 +15,7 @@ import (
 	"path/filepath"
 	"sort"
 	"strings"
+	"unicode"
 )
 
 type site struct {
@@ -24,20 +25,21 @@ type site struct {
 }
 
 type facts struct {
-	FormatTable   [][3]string `json:"formatTable"`   // ext, marshal, unmarshal
-	RawMapRanges  []site      `json:"rawMapRanges"`  // `range` over a map-typed expression (not through sortedMap)
-	TypeAsserts   []site      `json:"typeAsserts"`   // single-value x.(T)
-	PkgVars       []site      `json:"pkgVars"`       // package-level vars (what = kind)
-	PkgVarWrites  []site      `json:"pkgVarWrites"`  // assignments to package-level vars outside their declaration
-	FileReads     []site      `json:"fileReads"`     // calls that open/read file contents
-	DollarLits    []string    `json:"dollarLits"`    // string literals starting with `$`
-	DepthGuards   []site      `json:"depthGuards"`   // `depth > N` comparisons (what = N)
-	CliOptions    []site      `json:"cliOptions"`    // go-flags struct tags of cmd/bkl (func = short flag, what = choices)
-	ExitCalls     []site      `json:"exitCalls"`     // os.Exit / stdout writes in cmd/*
-	GoStatements  []site      `json:"goStatements"`  // `go` statements (concurrency inside the library)
-	DirectiveSeq  []site      `json:"directiveSeq"`  // per function: the `$` literals of its body in source order (what = joined by " ")
-	StructFields  []site      `json:"structFields"`  // every field of every struct type of package bkl (file, type, "name type")
-	ToolState     []site      `json:"toolState"`     // package-level vars and struct types of cmd/* and wrapper (pkg, kind, name)
+	FormatTable  [][3]string `json:"formatTable"`  // ext, marshal, unmarshal
+	RawMapRanges []site      `json:"rawMapRanges"` // `range` over a map-typed expression (not through sortedMap)
+	TypeAsserts  []site      `json:"typeAsserts"`  // single-value x.(T)
+	PkgVars      []site      `json:"pkgVars"`      // package-level vars (what = kind)
+	PkgVarWrites []site      `json:"pkgVarWrites"` // assignments to package-level vars outside their declaration
+	FileReads    []site      `json:"fileReads"`    // calls that open/read file contents
+	DollarLits   []string    `json:"dollarLits"`   // string literals starting with `$`
+	DepthGuards  []site      `json:"depthGuards"`  // `depth > N` comparisons (what = N)
+	CliOptions   []site      `json:"cliOptions"`   // go-flags struct tags of cmd/bkl (func = short flag, what = choices)
+	ExitCalls    []site      `json:"exitCalls"`    // os.Exit / stdout writes in cmd/*
+	GoStatements []site      `json:"goStatements"` // `go` statements (concurrency inside the library)
+	DirectiveSeq []site      `json:"directiveSeq"` // per function: the `$` literals of its body in source order (what = joined by " ")
+	StructFields []site      `json:"structFields"` // every field of every struct type of package bkl (file, type, "name type")
+	ToolState    []site      `json:"toolState"`    // package-level vars and struct types of cmd/* and wrapper (pkg, kind, name)
+	UnicodeLower [][3]int    `json:"unicodeLower"` // unicode.Lower of the toolchain that builds /repo, above Latin-1: lo, hi, stride
 }
 
 func posFunc(fset *token.FileSet, files []*ast.File, pos token.Pos) (string, string) {
@@ -389,6 +391,22 @@ func main() {
 		f.DollarLits = append(f.DollarLits, l)
 	}
 	sort.Strings(f.DollarLits)
+	// validate.go asks unicode.IsLower about the character after a `$`: the table the model uses (Bkl/UnicodeLower.lean)
+	// must be the toolchain's
+	for _, r := range unicode.Lower.R16 {
+		if r.Hi > unicode.MaxLatin1 {
+			lo := int(r.Lo)
+			for lo <= unicode.MaxLatin1 {
+				lo += int(r.Stride)
+			}
+			if lo <= int(r.Hi) {
+				f.UnicodeLower = append(f.UnicodeLower, [3]int{lo, int(r.Hi), int(r.Stride)})
+			}
+		}
+	}
+	for _, r := range unicode.Lower.R32 {
+		f.UnicodeLower = append(f.UnicodeLower, [3]int{int(r.Lo), int(r.Hi), int(r.Stride)})
+	}
 	out, _ := json.MarshalIndent(f, "", " ")
 	fmt.Println(string(out))
 }
